@@ -904,6 +904,43 @@ def fam_fields(rng):
                 expect_value(proj(vals), "x[%r] of %r" % (sel, vals), cmp=L.same), {"value": vals})
 
 
+def fam_broadcast(rng):
+    """C04 (the list-alignment step of broadcasting): broadcast_tooffsets64 onto offsets with the same list lengths keeps
+    the value; a length-1 regular dimension repeats its element to the requested lengths; different lengths raise"""
+    inner = gen_pure(rng, rng.randint(0, 1), regular=0.2)
+    size1 = rng.random() < 0.4
+    T = ("regular", inner, 1) if size1 else (("regular", inner, rng.choice([0, 2, 3])) if rng.random() < 0.3 else ("list", inner))
+    vals = [L.gen_value(rng, T) for _ in range(rng.randint(0, 4))]
+    lay = L.Enc(rng, allow_indexed=False, allow_ndnumpy=False).encode(vals, T)
+    if not isinstance(lay, (L.LO, L.LA, L.RG)):
+        return None
+    lens = [len(v) for v in vals]
+    mode = rng.choice(["same", "same", "repeat" if size1 else "same", "mismatch"])
+    if mode == "same":
+        counts, ref = lens, vals
+    elif mode == "repeat":
+        counts = [rng.randint(0, 3) for _ in vals]
+        ref = [[v[0]] * c for v, c in zip(vals, counts)]
+    else:
+        if not vals:
+            return None
+        counts = list(lens)
+        k = rng.randrange(len(vals))
+        counts[k] += rng.choice([1, 2])
+        if size1:
+            return None
+        ref = None
+    offs = [0]
+    for c in counts:
+        offs.append(offs[-1] + c)
+    line = "convert broadcast_tooffsets64 %d %s %s" % (len(offs), " ".join(map(str, offs)), lay.tokens())
+    if ref is None:
+        def check(r):
+            return None if r.status == "EXC" else ("value", "broadcasting lists of lengths %r to lengths %r must raise: %s" % (lens, counts, r))
+        return Case(line, check, {"value": vals})
+    return Case(line, expect_value(ref, "broadcast_tooffsets64(%r) of %r" % (offs, vals), cmp=L.same), {"value": vals})
+
+
 def fam_fillna(rng):
     """C09: fill_none replaces exactly the None values at the top level by the given value and changes nothing else;
     is_none (bytemask) is True exactly at the None positions"""
@@ -1438,6 +1475,7 @@ FAMILIES = {
     "localindex": (fam_localindex, ["C05"]),
     "rpad": (fam_rpad, ["C09"]),
     "fillna": (fam_fillna, ["C09"]),
+    "broadcast": (fam_broadcast, ["C04"]),
     "concat": (fam_concat, ["C08"]),
     "astype": (fam_astype, ["C08"]),
     "simplify_union": (fam_simplify_union, ["C08"]),
